@@ -36,6 +36,10 @@ PROBES = [
     "x = 1\ny = 0\nwhile true:\n    y = Normal(0, x)\nend\n",
     "x = 1\ny = 0\nwhile true:\n    y = Exponential(1/x)\nend\n",
     "x = 0\ny = 0\nwhile true:\n    x = Bernoulli(1/2)\n    y = Gamma(2, 1)\n    y = Beta(1, 2)\nend\n",
+    # bounds / location that are sums or differences (the rewriting a + (b - a)*U is built from the printed bounds)
+    "x = 0\ny = 0\nwhile true:\n    x = x + 1 {1/2} x - 1\n    y = Uniform(x - 1, x + 2)\nend\n",
+    "x = 0\ny = 0\nwhile true:\n    x = x + 1 {1/2} x - 1\n    y = Uniform(1 - x, x + 1)\nend\n",
+    "x = 0\ny = 0\nz = 1\nwhile true:\n    x = x + 1 {1/2} x\n    y = Normal(x - z - 1, 4)\n    z = Laplace(-x - 2, 1)\nend\n",
 ]
 
 
